@@ -681,6 +681,9 @@ def finish(prop, mod, tier, seed, results, findings, wall):
     # sanity of the generators themselves: required label classes must be populated
     missing = [l for l in getattr(mod, "REQUIRED_LABELS", {}).get(tier, [])
                if labels.get(l, 0) == 0]
+    # a sub-check that found its own premise violated (and said so in a note) waives the labels it would have produced
+    waived = [l[len("required_waived:"):] for l in labels if l.startswith("required_waived:")]
+    missing = [l for l in missing if not any(l.startswith(w) for w in waived)]
     if missing and not harness_errors and not buckets and not labels.get("tasks_cut_short_by_the_stall_guard") \
             and not os.environ.get("VERIF_SMOKE"):
         print(f"HARNESS-ERROR property={prop} generator never produced: {missing}",
